@@ -4,6 +4,7 @@
 //! model's and be at most max(size option, dictionary size) - all but the last exactly that.
 //! Commands and executors: see a_c02.rs (xz_sizes / lzip_sizes carry only the lengths of the
 //! write() calls; the implementation is fed constant bytes of these lengths).
+// requires-verif-hooks (hook H3: FilterConfig / FilterType re-exports); left out of guard-off builds by build.rs
 use super::a_c02::*;
 use crate::encutil::*;
 use crate::util::*;
